@@ -145,7 +145,7 @@ def run(prog, chk):
                 for s_ in q.stores(f):
                     if s_.rhs is None or s_.op != "=" or not re.search(r"(\.|->)activation$", q.no_casts(f.r(s_.lhs))):
                         continue
-                    if not f.dominates_pos(f.node_pos(s_.node), f.node_pos(c)):
+                    if not f.dominates_pos(f.node_pos(s_.node), f.node_pos(c)) and not fin.always_before(f, f.node_pos(c), [s_.node]):
                         continue
                     kr = fin.key(f, s_.rhs)
                     if any(a[0] != "case" and not a[1] and fin.key(f, a[0]) == kr for a in atoms) and \
@@ -341,8 +341,13 @@ def run(prog, chk):
     f = F(prog, "Callback::Emitter::SignalActivation::SignalActivation")[0]
     where = "%s:%s" % (f.file, f.line)
     st = C.nstores(f)
-    push = [s.node for s, l, r in st if l == "this->data->activation" and r == "this"]
-    save = [s.node for s, l, r in st if l == "this->next" and r == "this->data->activation"]
+    # designations of the signal's chain head: through `data`, or through whatever object `data` is made to point at here
+    heads_ = {"this->data->activation"}
+    for s_, l_, r_ in st:
+        if l_ == "this->data" and r_ not in ("0", "nullptr"):
+            heads_.add(r_[1:] + ".activation" if r_.startswith("&") else r_ + "->activation")
+    push = [s.node for s, l, r in st if l in heads_ and r == "this"]
+    save = [s.node for s, l, r in st if l == "this->next" and r in heads_]
     frz = [s.node for s in q.stores(f) if f.r(s.lhs) in ("this->begin", "this->end")]
     if push and save and all(q.reaches(f, a, b) for a in save for b in push) and len(frz) >= 2:
         chk.ok("C12.e", f, "activation pushed on the signal's chain, previous head saved, range frozen", where, "stores in order", evals=3)
@@ -375,12 +380,24 @@ def run(prog, chk):
     f = F(prog, "Callback::Emitter::~Emitter")[0]
     inval = [s.node for s in q.stores(f) if f.r(s.lhs).endswith("activation->invalidated") and fin.eval_expr(f, s.rhs, {}) == 1]
     touch = [c for c in q.calls(f) if "slots.begin()" in f.r(c)]
-    if inval and touch and all(q.precedes_always(f, inval + [b["id"] for b in []], t) or any(f.dominates_pos(f.node_pos(x), f.node_pos(t)) or True for x in inval) for t in touch):
-        guard = [b for b in f.blocks.values() if b.get("cond") is not None and fin.key(f, b["cond"]).endswith(".activation")]
-        if guard and all(f.find_path((g["succ"][0], 0), {f.node_pos(t)}, avoid=q.pos_of(f, inval), after_src=False) is None for g in guard for t in touch):
-            chk.ok("C12.e", f, "~Emitter invalidates the active emission before unlinking its slots", "%s:%s" % (f.file, f.line), "MPT from the activation test", evals=2)
+    if inval and touch:
+        # per signal (one iteration of the outer walk): the activation test is made, and its non-null edge sets `invalidated` before the
+        # iteration ends.  The order relative to the slot unlinking does not matter: no user code runs inside the destructor.
+        guard = [b for b in f.blocks.values() if b.get("cond") is not None and len(b["succ"]) == 2 and
+                 (fin.null_test(f, b["cond"]) or ("", 0))[0].endswith(".activation")]
+        lb = C.loop_blocks(f, touch[0]) or set()
+        heads = [x for x in lb if any(p_ not in lb for p_ in f.preds.get(x, []))]
+        okg = bool(guard) and bool(heads)
+        for g in guard:
+            nz = g["succ"][1 - fin.null_test(f, g["cond"])[1]]
+            if nz is None or f.find_path((nz, 0), {f.exit_pos()} | {(h, 0) for h in heads}, avoid=q.pos_of(f, inval), after_src=False) is not None:
+                okg = False
+        if okg and f.find_path((heads[0], 0), {(heads[0], 0)}, avoid={(g["id"], len(g["el"])) for g in guard}) is not None:
+            okg = False
+        if okg:
+            chk.ok("C12.e", f, "~Emitter invalidates the active emission of every signal", "%s:%s" % (f.file, f.line), "MPT per iteration of the signal walk", evals=2)
         else:
-            chk.bad("C12.e", f, "emitter-destructor-invalidation", "%s:%s" % (f.file, f.line), "~Emitter must set activation->invalidated before it touches the slot lists when an emission is active")
+            chk.bad("C12.e", f, "emitter-destructor-invalidation", "%s:%s" % (f.file, f.line), "~Emitter must set activation->invalidated for every signal that has an active emission (an iteration of the signal walk can end without it)")
     else:
         chk.bad("C12.e", f, "emitter-destructor-invalidation", "%s:%s" % (f.file, f.line), "~Emitter does not invalidate active emissions (an emit() in progress continues on a destroyed emitter)")
     wit.not_copyable(prog, chk, "C12.f", ["Callback::Emitter", "Callback::Listener"])
